@@ -664,6 +664,8 @@ def replay(case):
     res = Result()
     if "program" in case:
         return _replay_elif(case)
+    if "ast" not in case:
+        return []  # pipeline-layer findings carry only the surrounding lines; re-run the check to reproduce
     m = {n: _tup(b) for n, b in case.get("macro_asts", [])}
     e = _tup(case["ast"])
     vs = check_case((m, e), res)
